@@ -469,6 +469,49 @@ func certChainInst(c *core.Ctx, label string) *inst {
 	return in
 }
 
+// certSiblingInst: two chains built from the SAME certificate objects that
+// differ only in the SCT list of a later element are serialized alternately;
+// the output for one must not depend on the other having been serialized with
+// the same objects (variant: the same chain from freshly parsed certificates).
+func certSiblingInst(c *core.Ctx, label string) *inst {
+	leaf := fixtures.Leaves[c.Pick(label+".leaf", len(fixtures.Leaves))]
+	certs := []*x509.Certificate{leaf.Cert(), fixtures.CA()}
+	ocsp := c.Bytes(label+".ocsp", 1, 60)
+	sctA, sctB := []byte(nil), c.Bytes(label+".sctB", 1, 40)
+	if c.Bool(label + ".aHasSct") {
+		sctA = c.Bytes(label+".sctA", 1, 40)
+	}
+	mk := func(cs []*x509.Certificate, sct []byte) certurl.CertChain {
+		ch, _ := certurl.NewCertChain(cs, append([]byte(nil), ocsp...), nil)
+		ch[1].SCTList = sct
+		return ch
+	}
+	a, b := mk(certs, sctA), mk(certs, sctB)
+	bFirst := c.Bool(label + ".siblingFirst")
+	in := &inst{name: label + ":CertChain.Write(sibling chain shares certificates)", seqOnly: true}
+	in.run = func(w io.Writer) error {
+		if bFirst {
+			if err := b.Write(io.Discard); err != nil {
+				return err
+			}
+		}
+		if err := a.Write(w); err != nil {
+			return err
+		}
+		return b.Write(io.Discard)
+	}
+	in.variant = func(c *core.Ctx) *inst {
+		var cs []*x509.Certificate
+		for _, x := range certs {
+			y, _ := x509.ParseCertificate(x.Raw)
+			cs = append(cs, y)
+		}
+		fresh := mk(cs, sctA)
+		return &inst{name: in.name, seqOnly: true, run: func(w io.Writer) error { return fresh.Write(w) }}
+	}
+	return in
+}
+
 // ---- integrity block -------------------------------------------------------------------------
 
 type ibKind int
@@ -831,4 +874,5 @@ var instMakers = []func(c *core.Ctx) *inst{
 	func(c *core.Ctx) *inst { return cborSeqInst(c, "cbor") },
 	func(c *core.Ctx) *inst { return collidingInst(c, "collide") },
 	func(c *core.Ctx) *inst { return renewalInst(c, "renew") },
+	func(c *core.Ctx) *inst { return certSiblingInst(c, "sibling") },
 }
